@@ -5,6 +5,7 @@ use crate::host::*;
 use crate::refcodec::*;
 use serde_json::json;
 
+pub const KNOWN_RESTART: &str = "after a sequence-id discontinuity of the parent a BMCA run reinstates the pre-restart Announce contents";
 const OWN: [u8; 8] = [0, 0, 0, 0, 0, 0, 0, 0x10];
 const PARENT: PortId = PortId { clock: [0, 0, 0, 0, 0, 0, 0, 0x02], port: 1 };
 const RIVAL: PortId = PortId { clock: [0, 0, 0, 0, 0, 0, 0, 0x03], port: 1 };
@@ -89,8 +90,14 @@ pub fn case(t: &mut Tape) -> CaseOut {
     let mut changes = 0;
     let mut takeovers = 0;
     let mut was_slave = false;
+    let mut restarted = false;
+    let mut bmca_after_restart = false; // a BMCA ran while the pre-restart foreign-master record may still be alive
+    let mut parent_hist: Vec<Content> = vec![];
     for _ in 0..nops {
         let op = t.weighted(&[8, 3, 6, 8, 2, 2, 2, 1]);
+        if restarted && (op == 2 || op == 6) {
+            bmca_after_restart = true;
+        }
         match op {
             0 | 1 => {
                 // clean Announce from the parent stream (port 0) or the rival stream (port 1)
@@ -131,11 +138,25 @@ pub fn case(t: &mut Tape) -> CaseOut {
                 };
                 let s0 = t.below(65536) as u16;
                 let s = seqs.entry((p, src)).or_insert(s0);
-                *s = s.wrapping_add(1);
+                if op == 0 && t.chance(1, 12) {
+                    // the parent restarts: its sequence ids start again somewhere behind the last one used
+                    *s = s.wrapping_sub(1 + t.below(32768) as u16);
+                    cur_parent = gen_content(t, 0x02, 100);
+                    changes += 1;
+                    restarted = true;
+                    out.label("parent-restart(sequence id jumps back)");
+                    rendered.push("parent restarts".into());
+                } else {
+                    *s = s.wrapping_add(1);
+                }
+                let content = if op == 0 { cur_parent.clone() } else { content };
                 let mut m = announce_from(src, *s, content.ann, 0, 0);
                 m.header.flags[1] = content.flags1;
                 node.recv_general(p, &m.encode());
                 last.insert((p, src), content.clone());
+                if op == 0 {
+                    parent_hist.push(content.clone());
+                }
                 rendered.push(format!("p{} announce from {:?} seq {} steps {} gm {:x} flags {:02x}", p + 1, src.clock[7], *s, content.ann.steps_removed, content.ann.gm_identity[7], content.flags1));
             }
             2 => {
@@ -170,25 +191,33 @@ pub fn case(t: &mut Tape) -> CaseOut {
                     if let Some(sp) = states.iter().position(|s| *s == PS::Slave) {
                         emitted_while_slave += 1;
                         if let Some(c) = last.get(&(sp, before.parent)) {
-                            let leap59 = c.flags1 & 2 != 0;
-                            let mut want_f = c.flags1 & 0x3f;
-                            if leap59 {
-                                want_f &= !1; // both leap flags: the data set keeps Leap59 only
-                            }
-                            let mut ok = a.gm_identity == c.ann.gm_identity
-                                && a.gm_class == c.ann.gm_class
-                                && a.gm_accuracy == c.ann.gm_accuracy
-                                && a.gm_variance == c.ann.gm_variance
-                                && a.gm_priority1 == c.ann.gm_priority1
-                                && a.gm_priority2 == c.ann.gm_priority2
-                                && a.steps_removed == c.ann.steps_removed + 1
-                                && a.time_source == c.ann.time_source
-                                && (f1 & 0x3f) == want_f;
-                            if c.flags1 & 4 != 0 {
-                                ok &= a.utc_offset == c.ann.utc_offset;
-                            }
-                            if !ok {
-                                out.fail("Announce sent while a port is slave does not carry the parent's last Announce contents (stepsRemoved + 1)", format!("emitted {:?} flags {:02x} ; parent's last {:?} flags {:02x} ; ops {:?}", a, f1, c.ann, c.flags1, rendered));
+                            let matches = |c: &Content| {
+                                let leap59 = c.flags1 & 2 != 0;
+                                let mut want_f = c.flags1 & 0x3f;
+                                if leap59 {
+                                    want_f &= !1; // both leap flags: the data set keeps Leap59 only
+                                }
+                                let mut ok = a.gm_identity == c.ann.gm_identity
+                                    && a.gm_class == c.ann.gm_class
+                                    && a.gm_accuracy == c.ann.gm_accuracy
+                                    && a.gm_variance == c.ann.gm_variance
+                                    && a.gm_priority1 == c.ann.gm_priority1
+                                    && a.gm_priority2 == c.ann.gm_priority2
+                                    && a.steps_removed == c.ann.steps_removed + 1
+                                    && a.time_source == c.ann.time_source
+                                    && (f1 & 0x3f) == want_f;
+                                if c.flags1 & 4 != 0 {
+                                    ok &= a.utc_offset == c.ann.utc_offset;
+                                }
+                                ok
+                            };
+                            if !matches(c) {
+                                if bmca_after_restart && sp == 0 && parent_hist.iter().any(|h| matches(h)) {
+                                    // known finding: the BMCA reinstated what the parent announced before its restart
+                                    out.fail(KNOWN_RESTART, format!("emitted {:?} flags {:02x} ; parent's last {:?} flags {:02x} ; ops {:?}", a, f1, c.ann, c.flags1, rendered));
+                                } else {
+                                    out.fail("Announce sent while a port is slave does not carry the parent's last Announce contents (stepsRemoved + 1)", format!("emitted {:?} flags {:02x} ; parent's last {:?} flags {:02x} ; ops {:?}", a, f1, c.ann, c.flags1, rendered));
+                                }
                             }
                         } else {
                             out.fail("harness: slave of a parent without recorded Announce", format!("{:?}", before.parent));
@@ -281,7 +310,7 @@ pub fn run(ctx: &Ctx) -> i32 {
         Finish {
             ctx,
             level: "exploration",
-            rule: "boundary clock with 2-3 ports; a synthetic parent on port 1 and a rival master on port 2 emit clean Announce streams (strictly increasing ids) whose contents change over time (all six time-properties flags, UTC offset incl. extremes, time source, quality, priorities, grandmaster identity, stepsRemoved 0..254), parent silence long enough for the records to expire (take-over as grandmaster), receipt time-outs, SetClockQuality at random points, BMCA and announce timers in generated order. Oracle for every emitted Announce: (A) equals the data set getters read immediately before the call, (B) while a port is slave equals the parent's last Announce with stepsRemoved+1, (C) as grandmaster (after a completed BMCA) own attributes and the clock quality in force at that BMCA. Non-trivial = an Announce emitted while slave and a content change or take-over; distinct by op list.",
+            rule: "boundary clock with 2-3 ports; a synthetic parent on port 1 and a rival master on port 2 emit clean Announce streams (increasing ids; in 1/12 of the parent's Announces a restart: the id jumps back by 1..32768 and the contents change ; a BMCA run after that and before the old record has aged out is the regime of the known finding) whose contents change over time (all six time-properties flags, UTC offset incl. extremes, time source, quality, priorities, grandmaster identity, stepsRemoved 0..254), parent silence long enough for the records to expire (take-over as grandmaster), receipt time-outs, SetClockQuality at random points, BMCA and announce timers in generated order. Oracle for every emitted Announce: (A) equals the data set getters read immediately before the call, (B) while a port is slave equals the parent's last Announce with stepsRemoved+1, (C) as grandmaster (after a completed BMCA) own attributes and the clock quality in force at that BMCA. Non-trivial = an Announce emitted while slave and a content change or take-over; distinct by op list.",
             assumptions: vec!["both leap flags set by the parent: the data set keeps Leap59; UTC offset is only compared when currentUtcOffsetValid".into()],
             min_nontrivial: 100,
         },
